@@ -226,7 +226,9 @@ Qed.
 
 Theorem afl_ratio_correct a b : a < 18446744073709551616 -> 0 < b -> b < 18446744073709551616 ->
   B2R 24 128 (flt32_ratio a b) = afl_R (adp_ratio a b) /\
-  is_finite 24 128 (flt32_ratio a b) = true /\ afl_wf (adp_ratio a b).
+  is_finite 24 128 (flt32_ratio a b) = true /\ afl_wf (adp_ratio a b) /\
+  (a = 0 /\ adp_ratio a b = AF0 \/
+   (bpow radix2 (-64) <= afl_R (adp_ratio a b) <= bpow radix2 64)%R).
 Proof.
   intros Ha Hb Hb'. unfold flt32_ratio, flt32_div, adp_ratio.
   destruct (afl_of_N_correct a Ha) as (Xa & Fa & _).
@@ -248,7 +250,8 @@ Proof.
     unfold Rdiv in C. rewrite Rmult_0_l in C. unfold afl_round32 in C.
     rewrite round_0 in C by auto with typeclass_instances.
     rewrite Rabs_R0, Rlt_bool_true in C by apply bpow_gt_0.
-    destruct C as (C1 & C2 & _). rewrite C1, C2, Fa. repeat split; reflexivity.
+    destruct C as (C1 & C2 & _). rewrite C1, C2, Fa. repeat split; try reflexivity.
+    left. split; [exact A0|reflexivity].
   - destruct (afl_of_N_pos a ltac:(lia) Ha) as (ma & ea & Ea & Bma & _ & Ba).
     rewrite Ea in Xa |- *. cbn [afl_R] in Xa. cbn [adp_f32_div].
     destruct (afl_round_ratio_spec ma mb ltac:(lia) ltac:(lia)) as (m & e & E & Bm & Rd).
@@ -263,8 +266,9 @@ Proof.
     2:{ rewrite Rabs_pos_eq by lra. apply Rle_trans with (2 := proj1 Bq). apply bpow_le. lia. }
     pose proof (afl_round_between _ _ _ Bq) as Br.
     rewrite (afl_bpow_lt_128 64) in C by (try lia; lra).
-    destruct C as (C1 & C2 & _). rewrite C1, C2, Fa, Rd. cbn [afl_R afl_wf].
-    replace (e + ea - eb)%Z with (e + (ea - eb))%Z by lia. repeat split; try reflexivity; lia.
+    destruct C as (C1 & C2 & _). rewrite Rd in Br. rewrite C1, C2, Fa, Rd. cbn [afl_R afl_wf].
+    replace (e + ea - eb)%Z with (e + (ea - eb))%Z by lia.
+    split; [reflexivity|]. split; [reflexivity|]. split; [lia|]. right. exact Br.
 Qed.
 
 (* ---- comparison ---- *)
@@ -373,7 +377,7 @@ Theorem afl_ratio_lt_015 a b :
   a < 18446744073709551616 -> 0 < b -> b < 18446744073709551616 ->
   adp_f32_lt (adp_ratio a b) adp_f015 = flt32_ratio_lt_015 a b.
 Proof.
-  intros Ha Hb Hb'. destruct (afl_ratio_correct a b Ha Hb Hb') as (X & F & W).
+  intros Ha Hb Hb'. destruct (afl_ratio_correct a b Ha Hb Hb') as (X & F & W & _).
   destruct afl_015 as (Xc & Fc).
   unfold flt32_ratio_lt_015. rewrite afl_flt32_lt by assumption.
   rewrite X, Xc. apply afl_lt_correct; [exact W|exact afl_wf_015].
@@ -383,7 +387,7 @@ Theorem afl_ratio_gt_005 a b :
   a < 18446744073709551616 -> 0 < b -> b < 18446744073709551616 ->
   adp_f32_lt adp_f005 (adp_ratio a b) = flt32_ratio_gt_005 a b.
 Proof.
-  intros Ha Hb Hb'. destruct (afl_ratio_correct a b Ha Hb Hb') as (X & F & W).
+  intros Ha Hb Hb'. destruct (afl_ratio_correct a b Ha Hb Hb') as (X & F & W & _).
   destruct afl_005 as (Xc & Fc).
   unfold flt32_ratio_gt_005. rewrite afl_flt32_gt by assumption.
   rewrite X, Xc. apply afl_lt_correct; [exact afl_wf_005|exact W].
@@ -393,7 +397,7 @@ Theorem afl_ratio_lt_005 a b :
   a < 18446744073709551616 -> 0 < b -> b < 18446744073709551616 ->
   adp_f32_lt (adp_ratio a b) adp_f005 = flt32_ratio_lt_005 a b.
 Proof.
-  intros Ha Hb Hb'. destruct (afl_ratio_correct a b Ha Hb Hb') as (X & F & W).
+  intros Ha Hb Hb'. destruct (afl_ratio_correct a b Ha Hb Hb') as (X & F & W & _).
   destruct afl_005 as (Xc & Fc).
   unfold flt32_ratio_lt_005. rewrite afl_flt32_lt by assumption.
   rewrite X, Xc. apply afl_lt_correct; [exact W|exact afl_wf_005].
